@@ -237,13 +237,15 @@ def real_stream_worker(args):
     rng = random.Random(seed)
     out = []
     alphabet = ['a', 'b', ' ', '*', '_', '`', '[', ']', '(', ')', '<', '>', '~', '\\', '!', '@', '#', ':', '/', '.', '&', ';', '\n', 'x', '=', '"']
-    pats = [(r'@(\w+)@', 1), (r'#\[(.*?)\]', 1), (r'=(=*)=', 1), (r'(x+)', 1), (r'\*(a*)', 1), (r'a(b?)', 1), (r':(.+?):', 1), (r'\((\w*)\)', 1), (r'`(.)', 1)]
+    pats = [(r'@(\w+)@', 1), (r'#\[(.*?)\]', 1), (r'=(=*)=', 1), (r'(x+)', 1), (r'\*(a*)', 1), (r'a(b?)', 1), (r':(.+?):', 1), (r'\((\w*)\)', 1), (r'`(.)', 1),
+            # matches that begin ON the backslash of a valid escape: the escape must keep its place in front of them
+            (r'\\\*(\w*)', 1), (r'\\([_a]+)', 1)]
     for _ in range(n):
         k = rng.randint(0, 3)
         customs = []
         for j in range(k):
             pat, grp = rng.choice(pats)
-            ns = {'pattern': re.compile(pat), 'parse_group': grp, 'precedence': rng.randint(3, 7),
+            ns = {'pattern': re.compile(pat), 'parse_group': rng.choice([grp, grp, 0]), 'precedence': rng.randint(1, 7),
                   'parse_inner': rng.random() < 0.6}
             cls = type('Custom' + 'ABCD'[j], (span_token.SpanToken,), ns)
             customs.append(cls)
@@ -255,6 +257,8 @@ def real_stream_worker(args):
             with R(*customs) as r:
                 active = list(span_token._token_types)
                 rec['registered'] = all(c in active for c in customs)
+                # the escape stays the first type: a custom token never gets in front of it (ties at one position go to the type listed first)
+                rec['escape_first'] = active[0].__name__ == 'EscapeSequence'
                 cands = []
                 wrapped = []
                 cid = [0]
@@ -398,6 +402,10 @@ def run(ctx):
         if not r['registered'] or not r['reset']:
             ctx.failing.append({'interface': 'real-renderer', 'input': {'text': r['text'], 'customs': r['customs']},
                                 'what': 'custom tokens not active exactly inside the renderer context', 'kf': None})
+        elif not r.get('escape_first', True):
+            ctx.failing.append({'interface': 'real-renderer', 'input': {'text': r['text'], 'customs': r['customs']},
+                                'what': 'inside the renderer context a custom token type stands in front of EscapeSequence: a match that begins on the backslash of an escape takes the tie',
+                                'kf': None})
         elif not r.get('reset_after_exception', True):
             ctx.failing.append({'interface': 'real-renderer', 'input': {'text': r['text'], 'customs': r['customs'], 'context_left_by': 'an exception raised in the with block'},
                                 'what': 'custom tokens are still recognised after a renderer context that was left by an exception', 'kf': None})
